@@ -502,6 +502,7 @@ def _field_range(prog, record, field):
             return None
     lo, hi = INF, -INF
     n = 0
+    up = down = False
 
     def add(r):
         nonlocal lo, hi, n
@@ -512,7 +513,23 @@ def _field_range(prog, record, field):
         for e in f.events():
             if e['ev'] == 'store':
                 if _is_field(e['lhs'], record, field):
-                    if e.get('op') != '=' or 'rhs' not in e:
+                    op_ = e.get('op')
+                    if op_ in ('++', '--'):
+                        # a step moves the value away from what plain stores put there, in one direction (the representable
+                        # range of the field's type clips it at the reader, as for a stepped local in View._raw)
+                        up, down = (up or op_ == '++'), (down or op_ == '--')
+                        continue
+                    if op_ in ('+=', '-=') and 'rhs' in e:
+                        V = V or view_of(prog, f)
+                        r_ = V.range(e['rhs'], (e['_b'], e['_i']), frozenset({'#fr'}))
+                        if r_[0] >= 0:
+                            up, down = (up or op_ == '+='), (down or op_ == '-=')
+                        elif r_[1] <= 0:
+                            up, down = (up or op_ == '-='), (down or op_ == '+=')
+                        else:
+                            return None
+                        continue
+                    if op_ != '=' or 'rhs' not in e:
                         return None
                     V = V or view_of(prog, f)
                     add(V.range(e['rhs'], (e['_b'], e['_i']), frozenset({'#fr'})))
@@ -542,7 +559,60 @@ def _field_range(prog, record, field):
                             add(r)
     if n == 0:
         return None
+    if up:
+        hi = INF
+    if down:
+        lo = -INF
     return (min(lo, 0), max(hi, 0))         # zero-initialised storage (calloc, static objects) reads 0 before any store
+
+
+def field_pointees(prog, record, field, seen=frozenset(), depth=0):
+    """const-table elements (initialiser nodes) a pointer field of a record private to one .c file can designate: the
+    union over every store the program makes to it (each judged in the storing function: View.pointees); None when a
+    store is not understood, the field's address is taken, or an object of the record is initialised at file scope.
+    Zero-initialised storage and NULL stores contribute nothing (a read through the pointer cannot have seen them)."""
+    if not record or not field or str(record).startswith('<anon'):
+        return None
+    tag = '#fp:%s.%s' % (record, field)
+    if tag in seen:
+        return None
+    cache = prog.__dict__.setdefault('_h18_field_pointees', {})
+    if (record, field) in cache:
+        return cache[(record, field)]
+    rec = prog.records.get(record, {})
+    fdef = [f for f in rec.get('fields', []) if f['name'] == field]
+    if not fdef or not str(rec.get('loc', '')).split(':')[0].endswith('.c') or '*' not in (fdef[0].get('type') or ''):
+        return None
+    for g in prog.globals.values():
+        if isinstance(g, dict) and g.get('record') == record and not g.get('ptr') and g.get('init') is not None:
+            return None
+    out, n, res = [], 0, 'ok'
+    for f in prog.all_funcs():
+        if res is None:
+            break
+        V = None
+        for e in f.events():
+            if e['ev'] == 'store' and _is_field(e['lhs'], record, field):
+                if e.get('op') != '=' or 'rhs' not in e:
+                    res = None
+                    break
+                V = V or view_of(prog, f)
+                r = V.pointees(e['rhs'], (e['_b'], e['_i']), frozenset(s_ for s_ in seen if str(s_).startswith('#')) | {tag}, depth + 1)
+                if r is None:
+                    res = None
+                    break
+                out += r
+                n += 1
+                continue
+            for key, v in e.items():
+                if isinstance(v, (dict, list)) and key != 'chain':
+                    for y in walk(v):
+                        if y.get('k') == 'addr' and isinstance(y.get('e'), dict) and _is_field(y['e'], record, field):
+                            res = None
+    val = out if (res is not None and n) else None
+    if not (set(seen) - {tag}):
+        cache[(record, field)] = val
+    return val
 
 
 def field_storers(prog, record, field):
@@ -1111,8 +1181,13 @@ class View:
             if x['arrow']:
                 b = self.resolve(x['base'])
                 if not (isinstance(b, dict) and b.get('k') == 'addr'):
-                    return None
-                base = self.table_values(b['e'], point, seen, depth + 1, env)
+                    # a pointer that can only designate elements of const tables (every value it is ever given is
+                    # `&T[i]` with i inside T, or NULL, which a read through it cannot have been)
+                    base = self.pointees(x['base'], point, seen, depth + 1) if env is None else None
+                    if not base:
+                        return None
+                else:
+                    base = self.table_values(b['e'], point, seen, depth + 1, env)
             else:
                 base = self.table_values(x['base'], point, seen, depth + 1, env)
             if base is None:
@@ -1144,6 +1219,65 @@ class View:
                     return None
                 out += i['elems'][int(lo):int(hi) + 1]
             return out
+        return None
+
+    def pointees(self, p, point=None, seen=frozenset(), depth=0):
+        """initialiser nodes of the const-table elements the pointer value p can designate ([] for a pointer that is only
+        ever NULL); None when some value of p is not understood.  Sources followed: `&T[i]` (i anywhere in its range at
+        that point, which must lie inside T), NULL, `c ? a : b`, plain locals through the definitions that reach the
+        point, the return values of a library function with a body in sight, and a pointer field of a record that is
+        private to one .c file through every store the program makes to that field (field_pointees)."""
+        if depth > 24 or not isinstance(p, dict):
+            return None
+        x = strip(strip_load(p))
+        while isinstance(x, dict) and x.get('k') in ('load', 'paren', 'cast') and isinstance(x.get('e'), dict):
+            x = strip(x['e'])
+        if not isinstance(x, dict):
+            return None
+        k = x.get('k')
+        if k == 'null' or (k == 'int' and x.get('v') == 0):
+            return []
+        if k == 'addr':
+            return self.table_values(x['e'], point, seen, 0)       # cycles are cut by the tags in `seen`, not by depth
+        if k == 'cond':
+            a = self.pointees(x['a'], point, seen, depth + 1)
+            b = self.pointees(x['b'], point, seen, depth + 1)
+            return None if a is None or b is None else a + b
+        if k == 'var':
+            name = x['name']
+            if not self.is_plain_local(x) or ('#p:' + name) in seen:
+                return None
+            ds = self.defs_at(name, point)
+            if not ds:
+                return None
+            out = []
+            for d in ds:
+                if d.get('op') != '=' or 'rhs' not in d:
+                    return None
+                r = self.pointees(d['rhs'], (d['_b'], d['_i']), seen | {'#p:' + name}, depth + 1)
+                if r is None:
+                    return None
+                out += r
+            return out
+        if k == 'call' and self.prog is not None and x.get('callee'):
+            t = self.prog.resolve(self.prog.unit_of(self.g), x['callee'])
+            tag = '#pret:' + (t.q if t is not None else '?')
+            if t is None or not t.blocks or tag in seen:
+                return None
+            Vt = view_of(self.prog, t)
+            out, n = [], 0
+            for e in t.events():
+                if e['ev'] == 'ret':
+                    if 'value' not in e:
+                        return None
+                    r = Vt.pointees(e['value'], (e['_b'], e['_i']), frozenset(s_ for s_ in seen if str(s_).startswith('#')) | {tag}, depth + 1)
+                    if r is None:
+                        return None
+                    out += r
+                    n += 1
+            return out if n else None
+        if k == 'member' and self.prog is not None:
+            return field_pointees(self.prog, x.get('record'), x['field'], seen, depth + 1)
         return None
 
     def const_int(self, x, point=None, env=None):
@@ -2160,8 +2294,26 @@ def disposes_param(prog, t, idx):
     return cache[k]
 
 
-def owned_flow(V, rec, fld, key, born, init_aliases=frozenset()):
+# libc / kernel entry points that use the memory they are handed during the call only (they keep no pointer to it)
+NONRETAINING = frozenset((
+    'memset', 'memcpy', 'memmove', 'memcmp', 'strcpy', 'strncpy', 'strlen', 'strcmp', 'strncmp', 'snprintf', 'sprintf', 'vsnprintf',
+    'fprintf', 'printf', 'perror', 'syslog', 'wait4', 'waitpid', 'pipe', 'pipe2', 'syscall', 'read', 'write', 'recv', 'send', 'close',
+    'fcntl', 'ioctl', 'clock_gettime', 'gettimeofday', 'time', 'sigemptyset', 'sigfillset', 'sigaddset', 'sigdelset', 'sigismember',
+    'pthread_mutex_init', 'pthread_mutex_lock', 'pthread_mutex_unlock', 'pthread_mutex_destroy', 'pthread_self', 'getpid', 'abort',
+    'epoll_wait', 'epoll_pwait', 'epoll_pwait2', 'poll', 'ppoll', 'splice', 'dup2', 'open', 'socketpair', 'getsockopt', 'setsockopt',
+    'INIT_IV_LIST_HEAD', 'iv_list_empty', 'iv_list_del', 'iv_list_del_init', 'iv_avl_tree_delete', '___mutex_init', '___mutex_destroy',
+    '___mutex_lock', '___mutex_unlock', 'spin_init', 'spin_lock', 'spin_unlock', 'fallback_spin_init', 'fallback_spin_lock',
+    'fallback_spin_unlock', 'iv_fatal', 'pthr_join', 'pthr_detach', 'pthr_self', 'pthr_once', 'iv_get_thread_id'))
+
+
+def owned_flow(V, rec, fld, key, born, init_aliases=frozenset(), site=None):
     """Follows the block whose address the field `key` (an access to rec.fld) holds through the viewed function.
+
+    With `site` (source location of a store `L = malloc(...)` into a local; key None, born True) the block followed is
+    the one that store creates: the locals are then its only holders, so losing the last of them while 'live', a second
+    activation of the site while 'live', and a return while 'live' all lose the block; returning it (or an address inside
+    it), and handing it or an address inside it to code that is not in sight and not known to forget it (NONRETAINING),
+    make somebody else answer for it ('handed').
 
     Abstract state: a set of configurations (aliases, st, orphans):
       aliases  locals that hold the value the field holds now
@@ -2230,6 +2382,8 @@ def owned_flow(V, rec, fld, key, born, init_aliases=frozenset()):
     def tr1(e, cfg):
         aliases, st, orph = cfg
         ev = e['ev']
+        if site is not None and ev == 'ret' and not e.get('chain') and 'value' in e:
+            return dispose(cfg, lambda a: about(e['value'], a), lambda a: about_names(e['value'], a), 'handed')
         if ev == 'store':
             lhs = deref_norm(V, e['lhs'])
             l = strip(lhs)
@@ -2238,6 +2392,18 @@ def owned_flow(V, rec, fld, key, born, init_aliases=frozenset()):
                 l = pl
             n = local_name(l)
             plain = e.get('op') == '=' and 'rhs' in e
+            if site is not None and n is not None and strip(l).get('k') == 'var':
+                if e['loc'] == site and plain:
+                    # the tracked allocation (again: a loop): a block of the previous activation that is still live keeps
+                    # only the other locals that hold it
+                    orph = drop_name(orph, n)
+                    if st == 'live':
+                        orph = orph | {(aliases - {n}, e['loc'])}
+                    return (frozenset([n]), 'live', orph)
+                r_ = e['rhs'] if plain else None
+                if st == 'live' and aliases == frozenset([n]) and not (r_ is not None and about(r_, aliases)):
+                    # the last local that holds the block is given another value
+                    return (frozenset(), 'lost', drop_name(orph, n) | {(frozenset(), e['loc'])})
             if n is not None and strip(l).get('k') == 'var':
                 r = e['rhs'] if plain else None
                 if r is not None and (is_field(r) or holds(r, aliases - {n})):
@@ -2274,6 +2440,15 @@ def owned_flow(V, rec, fld, key, born, init_aliases=frozenset()):
                 others = [y for i, y in enumerate(args) if i != HAND_OVER[c]]
                 if not any(_addr_of_local_var(y) for y in others):
                     return dispose(cfg, lambda a: about(x, a), lambda a: about_names(x, a), 'handed')
+            if site is not None and c not in NONRETAINING and c not in FREE and c not in HAND_OVER:
+                # code that is not in sight (no body, a recursion the inliner stopped at, a user callback) is handed the block or
+                # an address inside it: it may keep it
+                if c is not None or 'fnexpr' in e:
+                    hit_ = [a_ for a_ in args if about(a_, aliases) or any(about_names(a_, o[0]) for o in orph if o[0])]
+                    if hit_ and not (c is None and table_callees(V, e)):
+                        for a_ in hit_:
+                            cfg = dispose(cfg, lambda a, a_=a_: about(a_, a), lambda a, a_=a_: about_names(a_, a), 'handed')
+                        return cfg
             if c is None and 'fnexpr' in e and V.prog is not None and args:
                 # a call through a const table of function pointers: the block is disposed of iff every selectable entry does so
                 hit = [i for i, a in enumerate(args) if holds(a, aliases) or is_field(a) or any(holds(a, o[0]) for o in orph)]
@@ -2321,6 +2496,19 @@ def owned_flow(V, rec, fld, key, born, init_aliases=frozenset()):
         return frozenset(out) if out else None
 
     init = frozenset([(frozenset(init_aliases), 'null' if born else 'live', frozenset())])
+    if site is not None:
+        # per path, with the integer locals that steer the control flow followed (a helper's `return -1` and the caller's
+        # `if (ret < 0)` belong to one path): path_states prunes the edges a known value contradicts
+        def edge1(blk, si, _atoms, cfg):
+            r = edge(blk, si, frozenset([cfg]))
+            return next(iter(r)) if r else None
+        rets = path_states(g, next(iter(init)), tr1, edge1, maxstates=4000)
+        ex = frozenset((tr1(e, fact) if e is not None else fact) for (e, fact, _rc) in rets)
+        lost = {}
+        for (aliases, st, orph) in ex:
+            for (a, loc) in orph:
+                lost.setdefault(loc, '/'.join(sorted(a)))
+        return {}, lost, {c[1] for c in ex}, len(ex)
     instate, ev_in = forward(g, init, transfer, lambda a, b: a | b, edge=edge)
     sites = {}
     for b, blk in g.blocks.items():
